@@ -23,6 +23,7 @@ type c16Req struct {
 	Kind  string `json:"kind"`  // get | mget
 	Stall bool   `json:"stall"` // the backend (node 2) does not answer this request / one fragment of it in time
 	Near  bool   `json:"near"`  // not stalled itself but served by the stalling node (queued behind the stall)
+	Moved bool   `json:"moved"` // (stalled requests) the stalling node first answers -MOVED to node 1, which then stalls
 }
 
 type c16Case struct {
@@ -69,6 +70,7 @@ func c16Gen(t *rapid.T) c16Case {
 		switch rapid.IntRange(0, 4).Draw(t, "role") {
 		case 0, 1:
 			r.Stall = true
+			r.Moved = rapid.IntRange(0, 2).Draw(t, "moved") == 0
 			anyStall = true
 		case 2:
 			r.Near = true
@@ -83,26 +85,42 @@ func c16Gen(t *rapid.T) c16Case {
 
 // c16Build turns the symbolic case into requests; it returns the stalled keys.
 func c16Build(c *c16Case) ([]Req, map[string]bool) {
+	reqs, stalled, _ := c16Build2(c)
+	return reqs, stalled
+}
+
+func c16Build2(c *c16Case) ([]Req, map[string]bool, map[string]bool) {
+	moved := map[string]bool{}
 	stalled := map[string]bool{}
 	var reqs []Req
+	// node 1 is the redirect target in cases with a moved slot, so healthy requests stay on node 0 there
+	healthy := []int{c16SlotA, c16SlotB}
+	for _, r := range c.Reqs {
+		if r.Stall && r.Moved {
+			healthy = []int{c16SlotA, c16SlotA + 1}
+		}
+	}
 	for i, r := range c.Reqs {
-		slot := []int{c16SlotA, c16SlotB}[i%2]
+		slot := healthy[i%2]
 		if r.Stall || r.Near {
 			slot = c16SlotStall
 		}
 		k := keyFor(slot, 0, i, 0)
 		if r.Stall {
 			stalled[string(k)] = true
+			if r.Moved {
+				moved[string(k)] = true
+			}
 		}
 		if r.Kind == "mget" {
 			// a split request: one fragment on the (possibly stalling) node, one elsewhere
-			k2 := keyFor([]int{c16SlotB, c16SlotA}[i%2], 0, i, 1)
+			k2 := keyFor(healthy[(i+1)%2], 0, i, 1)
 			reqs = append(reqs, Req{Name: Bin("mget"), Args: []Bin{k2, k}})
 		} else {
 			reqs = append(reqs, Req{Name: Bin("get"), Args: []Bin{k}})
 		}
 	}
-	return reqs, stalled
+	return reqs, stalled, moved
 }
 
 func c16Exec(c *c16Case) []Discrepancy {
@@ -115,12 +133,16 @@ func c16Exec(c *c16Case) []Discrepancy {
 }
 
 func c16Run(f *Fixture, c *c16Case) []Discrepancy {
-	reqs, stalled := c16Build(c)
+	reqs, stalled, moved := c16Build2(c)
 	gates := &gateSet{}
 	f.Cluster.ResetLog()
 	f.Cluster.SetHandler(func(req *fakecluster.Request) fakecluster.Action {
 		a := fakecluster.Action{Reply: fakecluster.EchoReply(req)}
 		for _, k := range keysOf(req.Name, req.Args) {
+			if moved[string(k)] && req.Node == 2 {
+				// the slot has moved: redirect to node 1, which will then keep the client waiting
+				return fakecluster.Action{Reply: []byte(fmt.Sprintf("-MOVED %d %s\r\n", refmodel.KeySlot(k), f.Cluster.Nodes[1].Addr))}
+			}
 			if stalled[string(k)] {
 				a.Gate = gates.add(req.Seq)
 				break
@@ -243,6 +265,10 @@ func c16Classify(c *c16Case) (bool, []string) {
 		if r.Kind == "mget" {
 			nt = true
 			cls = append(cls, "stalled-fragment-of-split-request")
+		}
+		if r.Moved {
+			nt = true
+			cls = append(cls, "stall-after-redirect")
 		}
 	}
 	cls = append(cls, fmt.Sprintf("timeout-%d", c.TimeoutMs), fmt.Sprintf("pipeline-%d", len(c.Reqs)))
